@@ -159,12 +159,6 @@ def corpus(g, depth2=True, with_autosemi=False):
 
 # hand-picked programs exercising literal spellings and layouts the grammar walk does not vary
 EXTRA_PROGRAMS = [
-    # a `}` that ends an expression (function expression, object literal) directly followed by a division
-    'var half = function () { return total; } / 2;',
-    # a regular expression that starts with `=` directly behind a block (re-read by the parser after `/=` failed), on the same and on the next line
-    '{ a; } /=a/g.test(y);',
-    'if (b) { c; }\n/=d/.exec(e);',
-    'x = function () { return 1; } / 2 / 3;\ny = {b: 1} / 2 / z;',
     'var a = 1, b = "x", c = /re/g, d = [1, , 2, , ], e = {a: 1, "b": 2, 3: 4, get x() { return 1; }, set x(v) { }};',
     'function f(a, b) { if (a) return b; else return a + b * (a - b) / 2 % 3; }',
     'for (var i = 0, n = 10; i < n; i++) { continue; }\nfor (;;) break;\nfor (x in y) ;\nfor (var k in o) { }',
@@ -188,4 +182,10 @@ EXTRA_PROGRAMS = [
     # characters that str.splitlines breaks at but ES5 does not, inside string / comment tokens
     'var s = "a\x0cb\x85c", t = 2;\nshow(s, t); /* p\x0bq\x1cr */ u = 3;\nv = 4;',
     'var élève = 1, $ = 2, _x1 = 3, π = 4;',
+    # a `}` that ends an expression (function expression, object literal) directly followed by a division
+    'var half = function () { return total; } / 2;',
+    # a regular expression that starts with `=` directly behind a block (re-read by the parser after `/=` failed), on the same and on the next line
+    '{ a; } /=a/g.test(y);',
+    'if (b) { c; }\n/=d/.exec(e);',
+    'x = function () { return 1; } / 2 / 3;\ny = {b: 1} / 2 / z;',
 ]
